@@ -221,7 +221,7 @@ def oracle(case, obs):
 def small(case):
     """the case as it goes into a replay file"""
     out = {"entries": [[n, h, bool(c)] for n, h, c in case["entries"]], "queries": list(case.get("queries", []))}
-    for k in ("ops", "note"):
+    for k in ("ops", "note", "dup"):
         if k in case:
             out[k] = case[k]
     return out
@@ -706,12 +706,66 @@ def history_request(case) -> str:
     return ("apk " + es + " ? " + " ".join(enc_name(q) for q in history_queries(case))).replace("  ", " ")
 
 
-def compact_archive(case):
+def oracle_dup(case, obs):
+    """independent oracle for a central directory that REPEATS names: every name is listed once at its first
+    position, a name denotes the content of its LAST header (what zipfile.read returns and what the
+    generator wrote last under that name); DEX listing / multidex count each name once"""
+    bad = []
+    if "ctor" in obs:
+        return [("APK raised on a well-formed archive with repeated names", "an APK object", obs["ctor"])]
+    entries = obs["entries"]
+    names = [n for n, _, _ in entries]
+    zf = zipfile.ZipFile(io.BytesIO(obs["raw"]))
+    if zf.namelist() != names:
+        raise ToolFailure("zipfile lists other names than harness/zipwriter.py wrote (duplicates stream)")
+    uniq = list(dict.fromkeys(names))
+    last = {}
+    for n, d, _ in entries:
+        last[n] = d
+    if obs["files"] != uniq:
+        bad.append(("get_files is not every entry name once, in first-occurrence order", uniq, obs["files"]))
+    for n in uniq:
+        zdata = zf.read(n)
+        if zdata != last[n]:
+            raise ToolFailure(f"zipfile does not read the LAST member written under the repeated name {n!a}")
+        line, got = obs["get"][n]
+        if got != zdata:
+            bad.append((f"get_file({n!r}) is not the content of the last entry of that name (name occurs "
+                        f"{names.count(n)} times)", "ok:" + enc_data(zdata), line))
+    for q in case.get("queries", []):
+        if q not in last and obs["get"][q][0] != "missing":
+            bad.append((f"get_file({q!r}) of a missing entry does not raise FileNotPresent", "missing", obs["get"][q][0]))
+    want = [n for n in uniq if spec(n)]
+    if obs["dex"] != want:
+        bad.append(("get_dex_names is not the DEX names of the archive, each once, in first-occurrence order", want, obs["dex"]))
+    if obs["all_blobs"] != [last[n] for n in want]:
+        bad.append(("get_all_dex does not yield the (last) content of each DEX name once",
+                    ["ok:" + enc_data(last[n]) for n in want], obs["all"]))
+    if obs["multi"] is not (len(want) > 1):
+        bad.append(("is_multidex is not (number of distinct DEX names > 1)", len(want) > 1, obs["multi"]))
+    return bad
+
+
+def gen_dup_archive(rng):
+    """an ordinary archive with 1-4 extra headers that repeat an existing name with other content"""
+    case = gen_archive(rng)
+    es = [e for e in case["entries"]]
+    if not es:
+        es = [["classes.dex", gen_data(rng).hex(), rng.random() < 0.5]]
+    for _ in range(rng.choice((1, 1, 2, 3, 4))):
+        dexes = [e for e in es if spec(e[0])]
+        src = rng.choice(dexes) if dexes and rng.random() < 0.45 else rng.choice(es)
+        d = b"" if src[0].endswith("/") else (bytes.fromhex(src[1]) if rng.random() < 0.15 else gen_data(rng))
+        es.insert(rng.randrange(len(es) + 1), [src[0], d.hex(), rng.random() < 0.5])
+    return {"entries": es, "queries": case["queries"], "dup": True}
+
+
+def compact_archive(case, orc=None):
     """a failing single-pass case with every entry removed that is not needed for the failure; the note
     keeps only the groups that still have an entry in the archive"""
     def fails(c):
         try:
-            return bool(oracle(c, observe(c)))
+            return bool((orc or oracle)(c, observe(c)))
         except Exception:  # noqa
             return False
     c = small(case)
@@ -986,6 +1040,30 @@ def run(ck: Check):
             if len(hsamples) < 2 and i in (1, ncoll // 2):
                 hsamples.append({"entries": [e[0] for e in hc["entries"]], "forged": case["note"][:2],
                                  "ops": [o[0] if len(o) == 1 else f"get {o[1]!a}" for o in hc["ops"]][:14], "real": line[:200]})
+    # (f) central directories that REPEAT names (Spec/ApkFiles: listed once at the first position, content of the last)
+    ndup = 6000 if big else 1600 if esc else 400
+    dreqs, dreals = [], []
+    dd = {"dup_archives": 0, "dup_headers": 0, "dup_dex_names": 0, "dup_name_three_or_more": 0}
+    for i in range(ndup):
+        case = gen_dup_archive(rng)
+        obs = observe(case)
+        dreqs.append(request_of(case)); dreals.append(real_line(case, obs))
+        bad = oracle_dup(case, obs)
+        if bad:
+            cc = compact_archive(case, oracle_dup) if nfail_h < 3 else small(case)
+            nfail_h += 1
+            b2 = oracle_dup(cc, observe(cc)) or bad
+            ck.fail(cc, b2[0][0], None, b2[0][1], b2[0][2])
+        nm = [e[0] for e in case["entries"]]
+        dd["dup_archives"] += 1
+        dd["dup_headers"] += len(nm) - len(set(nm))
+        dd["dup_dex_names"] += sum(1 for n in set(nm) if spec(n) and nm.count(n) > 1)
+        dd["dup_name_three_or_more"] += any(nm.count(n) > 2 for n in set(nm))
+        hkeys.append(("d", tuple(nm), tuple(len(e[1]) for e in case["entries"])))
+    ck.compare("duplicates", dreqs, dreals, drv.ask(dreqs))
+    hd.update(dd)
+    ck.cover(evaluations=ndup)
+
     # (e) histories over the wider vocabulary: new_zip (deletions / replacements, output judged) and every
     #     reflected public method; after each such step all judged queries are re-checked against the ORIGINAL bytes
     nside = 6000 if big else 1200 if esc else 300
@@ -1042,13 +1120,15 @@ def run(ck: Check):
         "reading the zip container (apkInspector.headers.ZipEntry, zlib inflate) is modelled as an abstract entry list, "
         "not verified; it is tied to Python's zipfile and to the bytes the independent writer harness/zipwriter.py put in "
         "by the correspondence/oracle on generated archives only",
-        "entry names are distinct, valid UTF-8 (flag bit 11 set when non-ASCII), non-empty and contain no NUL; "
+        "entry names are valid UTF-8; repeated names are covered by the duplicates stream (listed once at the first "
+        "position, content of the last header: Spec/ApkFiles.lean, archive_* theorems), all other streams use distinct names; "
+        "names are valid UTF-8 (flag bit 11 set when non-ASCII), non-empty and contain no NUL; "
         "no zip64, data descriptors, extra fields, comments or encrypted entries",
         "Python's zipfile is the oracle for what the archive contains; the specification predicate is written on str directly",
         "CPython's re engine is modelled by the hand compilation of the two patterns (pinned by regex_pinned, "
         "checked per name by the dexname streams)",
     ]
-    ck.partial.append("archive reading (apkInspector) is tied by correspondence with zipfile only, not proved")
+    ck.partial.append("decoding the zip container (apkInspector: EOCD, central directory and local headers, stored/deflate, UTF-8 names) into the header sequence is NOT modelled or proved: tied to zipfile by correspondence only; the Lean statements start from the central directory (names may repeat: Spec/ApkFiles.lean)")
     ck.notes.append("registered against the tree with fixes/C34-dex-name-regex.diff applied (D17: unescaped dot, "
                     "`$` before a final newline, Unicode \\d)")
 
@@ -1089,7 +1169,7 @@ def replay(ck: Check, rp):
     names = [e[0] for e in case["entries"]]
     want = [n for n in names if spec(n)]
     print("spec : files =", [ascii(n) for n in names], "dex =", [ascii(n) for n in want], "multi =", len(want) > 1)
-    bad = oracle(case, obs)
+    bad = (oracle_dup if case.get("dup") else oracle)(case, obs)
     for what, exp, got in bad:
         print("FAIL :", what, "| expected", ascii(exp), "| observed", ascii(got))
     if not bad:
